@@ -60,6 +60,43 @@ Theorem C19_scroll_up_cells : forall s, wf s -> same_fields (scroll_up s) s /\
 Proof. exact scroll_up_spec. Qed.
 Print Assumptions C19_scroll_up_cells.
 
+Theorem C19_scroll_down_cells : forall s, wf s -> same_fields (scroll_down s) s /\
+  forall i j, cell (w (scroll_down s)) i j =
+    if ((sr_start s <? Z.of_nat i + 1) && (Z.of_nat i + 1 <=? sr_end s))%bool then cell (w s) (i - 1) j else cell (w s) i j.
+Proof. exact scroll_down_spec. Qed.
+Print Assumptions C19_scroll_down_cells.
+
+(** put_abs writes exactly one cell - the one at the coordinates taken to the nearest edge - and no field *)
+Theorem C19_put_abs_cells : forall s r c ch, wf s ->
+  wf (put_abs s r c ch) /\ same_fields (put_abs s r c ch) s /\
+  forall i j, cell (w (put_abs s r c ch)) i j =
+    if (Nat.eqb i (Z.to_nat (constrain r 1 (rows s) - 1)) && Nat.eqb j (Z.to_nat (constrain c 1 (cols s) - 1)))%bool
+    then ch else cell (w s) i j.
+Proof. exact put_abs_spec. Qed.
+Print Assumptions C19_put_abs_cells.
+
+(** cursor movements (home / back / forward / up / down, any arguments, any number of them) change the cursor and
+    nothing else: grid, saved cursor, scroll region and size are as before *)
+Theorem C19_cursor_moves_change_only_the_cursor : forall ops s, forallb is_move ops = true ->
+  w (fold_left sstep ops s) = w s /\ sav_r (fold_left sstep ops s) = sav_r s /\ sav_c (fold_left sstep ops s) = sav_c s /\
+  sr_start (fold_left sstep ops s) = sr_start s /\ sr_end (fold_left sstep ops s) = sr_end s /\
+  rows (fold_left sstep ops s) = rows s /\ cols (fold_left sstep ops s) = cols s.
+Proof. exact moves_frame. Qed.
+Print Assumptions C19_cursor_moves_change_only_the_cursor.
+
+(** save ; any cursor movements ; restore: the cursor is back where it was saved, grid and scroll region untouched *)
+Theorem C19_save_moves_restore : forall s ops, wf s -> forallb is_move ops = true ->
+  let s' := cursor_restore_attrs (fold_left sstep ops (cursor_save_attrs s)) in
+  cur_r s' = cur_r s /\ cur_c s' = cur_c s /\ w s' = w s /\ sr_start s' = sr_start s /\ sr_end s' = sr_end s.
+Proof. exact save_moves_restore. Qed.
+Print Assumptions C19_save_moves_restore.
+
+(** non-vacuity: a save at (2,3), movements off both edges, a restore *)
+Example C19_save_moves_restore_somewhere :
+  let s := fold_left sstep [OHome 2 3; OSave; OUp 9; OForward 99; OHome 0 0; ORestore] (init 3 4) in
+  (cur_r s, cur_c s) = (2, 3).
+Proof. vm_compute. reflexivity. Qed.
+
 (** non-vacuity: erase_down on the last row of a 2x3 screen keeps the cells left of the cursor *)
 Example C19_erase_down_last_row :
   w (fold_left sstep [OFill 120%N; OHome 2 2; OEraseDown] (init 2 3)) = [[120; 120; 120]; [120; 32; 32]]%N.
